@@ -225,6 +225,12 @@ impl WorkerPool {
                     break;
                 }
             };
+            #[cfg(feature = "verif-hooks")]
+            crate::verif_hooks::sched::point(
+                crate::verif_hooks::sched::Site::WorkerDequeue,
+                worker_id,
+                &first_packet,
+            );
 
             // Process first packet
             if !Self::process_packet(
@@ -237,11 +243,23 @@ impl WorkerPool {
                 tracing::debug!("TCP worker {worker_id}: result channel closed");
                 break;
             }
+            #[cfg(feature = "verif-hooks")]
+            crate::verif_hooks::sched::point(
+                crate::verif_hooks::sched::Site::WorkerProcessed,
+                worker_id,
+                &first_packet,
+            );
 
             // Try to collect more packets for batch processing (non-blocking)
             for _ in 1..config.batch_size {
                 match rx.try_recv() {
                     Ok(packet) => {
+                        #[cfg(feature = "verif-hooks")]
+                        crate::verif_hooks::sched::point(
+                            crate::verif_hooks::sched::Site::WorkerDequeue,
+                            worker_id,
+                            &packet,
+                        );
                         if !Self::process_packet(
                             &packet,
                             &mut connection_tracker,
@@ -252,6 +270,12 @@ impl WorkerPool {
                             tracing::debug!("TCP worker {worker_id}: result channel closed");
                             return;
                         }
+                        #[cfg(feature = "verif-hooks")]
+                        crate::verif_hooks::sched::point(
+                            crate::verif_hooks::sched::Site::WorkerProcessed,
+                            worker_id,
+                            &packet,
+                        );
                     }
                     Err(_) => break, // No more packets available, continue to next batch
                 }
@@ -306,6 +330,12 @@ impl WorkerPool {
     /// Uses hash-based assignment to ensure packets from the same source IP
     /// always go to the same worker, maintaining state consistency.
     pub fn dispatch(&self, packet: Vec<u8>) -> DispatchResult {
+        #[cfg(feature = "verif-hooks")]
+        crate::verif_hooks::sched::point(
+            crate::verif_hooks::sched::Site::DispatchEnter,
+            usize::MAX,
+            &packet,
+        );
         // Check if pool is shutting down
         if self.shutdown_flag.load(Ordering::Relaxed) {
             return DispatchResult::Dropped;
@@ -318,13 +348,31 @@ impl WorkerPool {
         let worker_id = source_ip_hash
             .checked_rem(self.num_workers.get())
             .unwrap_or(0);
+        #[cfg(feature = "verif-hooks")]
+        crate::verif_hooks::sched::point(
+            crate::verif_hooks::sched::Site::DispatchChosen,
+            worker_id,
+            &packet,
+        );
 
         match self.packet_senders[worker_id].try_send(packet) {
             Ok(()) => {
+                #[cfg(feature = "verif-hooks")]
+                crate::verif_hooks::sched::point(
+                    crate::verif_hooks::sched::Site::DispatchQueued,
+                    worker_id,
+                    &[],
+                );
                 self.dispatched_count.fetch_add(1, Ordering::Relaxed);
                 DispatchResult::Queued
             }
             Err(TrySendError::Full(_)) | Err(TrySendError::Disconnected(_)) => {
+                #[cfg(feature = "verif-hooks")]
+                crate::verif_hooks::sched::point(
+                    crate::verif_hooks::sched::Site::DispatchDropped,
+                    worker_id,
+                    &[],
+                );
                 self.dropped_count.fetch_add(1, Ordering::Relaxed);
                 self.worker_dropped[worker_id].fetch_add(1, Ordering::Relaxed);
                 DispatchResult::Dropped
